@@ -12,6 +12,7 @@ import (
 	"flag"
 	"fmt"
 	"go/ast"
+	"go/parser"
 	"go/printer"
 	"go/token"
 	"go/types"
@@ -27,10 +28,11 @@ import (
 const vrtPath = "corebgpverif/vrt"
 
 var shimOf = map[string]string{
-	"sync":    "corebgpverif/shim/sync",
-	"time":    "corebgpverif/shim/time",
-	"context": "corebgpverif/shim/context",
-	"net":     "corebgpverif/shim/net",
+	"sync":        "corebgpverif/shim/sync",
+	"time":        "corebgpverif/shim/time",
+	"context":     "corebgpverif/shim/context",
+	"net":         "corebgpverif/shim/net",
+	"sync/atomic": "corebgpverif/shim/atomic",
 }
 
 func fatalf(code int, f string, a ...any) {
@@ -63,8 +65,11 @@ type rewriter struct {
 	makeElem map[*ast.CallExpr]ast.Expr
 	delMap   map[*ast.CallExpr]bool
 	lenMap   map[*ast.CallExpr]bool
-	rangeK   map[*ast.RangeStmt]string // "map" | "chan"
-	mapIdx   map[*ast.IndexExpr]bool   // index into instrumented map
+	lenChan  map[*ast.CallExpr]bool
+	makeConv map[*ast.CallExpr]ast.Expr // make of a named channel type: the type to convert back to
+	selBlock map[*ast.BlockStmt]bool    // blocks produced from select statements
+	rangeK   map[*ast.RangeStmt]string  // "map" | "chan"
+	mapIdx   map[*ast.IndexExpr]bool    // index into instrumented map
 	errs     []string
 	// sharedLoopVars: the module's language version is below go1.22, so the variables of a
 	// range statement are shared by all iterations (closures capturing them see the last value)
@@ -195,9 +200,6 @@ func (r *rewriter) pre(c *astutil.Cursor) bool {
 	}
 	switch n := c.Node().(type) {
 	case *ast.SelectStmt:
-		if _, lab := c.Parent().(*ast.LabeledStmt); lab {
-			r.unsupported(n, "labelled select")
-		}
 		for _, cl := range n.Body.List {
 			cc := cl.(*ast.CommClause)
 			if cc.Comm == nil {
@@ -258,16 +260,31 @@ func (r *rewriter) pre(c *astutil.Cursor) bool {
 					r.unsupported(n, "make of directional channel")
 				}
 				r.makeElem[n] = ct.Value
-			} else if isChan(r.info.TypeOf(n.Args[0])) {
-				r.unsupported(n, "make of named channel type")
+			} else if t := r.info.TypeOf(n.Args[0]); isChan(t) {
+				ct := t.Underlying().(*types.Chan)
+				if ct.Dir() != types.SendRecv {
+					r.unsupported(n, "make of directional channel")
+				}
+				el, err := parser.ParseExpr(types.TypeString(ct.Elem(), func(p *types.Package) string {
+					if p == r.pkg {
+						return ""
+					}
+					return p.Name()
+				}))
+				if err != nil {
+					r.unsupported(n, "make of named channel type with an element type the rewriter cannot print")
+				} else {
+					r.makeElem[n] = el
+					r.makeConv[n] = n.Args[0]
+				}
 			}
 		case r.builtin(n, "delete"):
 			if r.ownField(n.Args[0]) {
 				r.delMap[n] = true
 			}
 		case r.builtin(n, "len"), r.builtin(n, "cap"):
-			if isChan(r.info.TypeOf(n.Args[0])) {
-				r.unsupported(n, "len/cap of channel")
+			if isChan(r.info.TypeOf(n.Args[0])) && r.builtin(n, "len") {
+				r.lenChan[n] = true // cap(ch) needs no help: the real channel has the real capacity
 			}
 			if isMap(r.info.TypeOf(n.Args[0])) && r.ownField(n.Args[0]) {
 				r.lenMap[n] = true
@@ -392,7 +409,14 @@ func (r *rewriter) post(c *astutil.Cursor) bool {
 			if len(n.Args) > 1 {
 				size = n.Args[1]
 			}
-			c.Replace(call(&ast.IndexExpr{X: vrtSel("MakeChan"), Index: r.makeElem[n]}, size, r.site(n)))
+			var mk ast.Expr = call(&ast.IndexExpr{X: vrtSel("MakeChan"), Index: r.makeElem[n]}, size, r.site(n))
+			if conv := r.makeConv[n]; conv != nil {
+				mk = call(&ast.ParenExpr{X: conv}, mk)
+			}
+			c.Replace(mk)
+			r.needVrt, r.changed = true, true
+		case r.lenChan[n]:
+			c.Replace(call(vrtSel("ChanLen"), n.Args[0], r.site(n)))
 			r.needVrt, r.changed = true, true
 		case r.delMap[n] && r.race:
 			n.Args[0] = call(vrtSel("MapW"), n.Args[0], r.site(n))
@@ -403,6 +427,13 @@ func (r *rewriter) post(c *astutil.Cursor) bool {
 		}
 	case *ast.SelectStmt:
 		c.Replace(r.rewriteSelect(n))
+	case *ast.LabeledStmt:
+		// L: select {...}  ->  { temporaries; L: switch ... } so that "break L" keeps its meaning
+		if b, ok := n.Stmt.(*ast.BlockStmt); ok && r.selBlock[b] {
+			last := len(b.List) - 1
+			b.List[last] = &ast.LabeledStmt{Label: n.Label, Stmt: b.List[last]}
+			c.Replace(b)
+		}
 	case *ast.RangeStmt:
 		switch r.rangeK[n] {
 		case "map":
@@ -414,14 +445,11 @@ func (r *rewriter) post(c *astutil.Cursor) bool {
 		p, _ := strconv.Unquote(n.Path.Value)
 		if sh, ok := shimOf[p]; ok {
 			if n.Name == nil {
-				n.Name = ast.NewIdent(p)
+				n.Name = ast.NewIdent(p[strings.LastIndexByte(p, '/')+1:])
 			}
 			n.Path = &ast.BasicLit{Kind: token.STRING, Value: strconv.Quote(sh)}
 			n.EndPos = 0
 			r.changed = true
-		}
-		if p == "sync/atomic" || p == "reflect" && false {
-			// atomics are left in place: sequentially consistent under a serialised runtime
 		}
 	}
 	return true
@@ -518,7 +546,9 @@ func (r *rewriter) rewriteSelect(n *ast.SelectStmt) ast.Stmt {
 		&ast.AssignStmt{Lhs: []ast.Expr{ast.NewIdent("_"), ast.NewIdent("_")}, Tok: token.ASSIGN, Rhs: []ast.Expr{vv, vok}},
 		&ast.SwitchStmt{Tag: vi, Body: &ast.BlockStmt{List: clauses}},
 	)
-	return &ast.BlockStmt{List: pre}
+	blk := &ast.BlockStmt{List: pre}
+	r.selBlock[blk] = true
+	return blk
 }
 
 func isBlank(e ast.Expr) bool {
@@ -658,7 +688,7 @@ func main() {
 			r := &rewriter{fset: pkg.Fset, info: pkg.TypesInfo, pkg: pkg.Types, file: name, race: *race, sharedLoopVars: shared,
 				skipComm: map[ast.Node]bool{}, mode: map[ast.Expr]accessMode{}, wrap: map[ast.Expr]bool{}, siteOf: map[ast.Node]*ast.BasicLit{},
 				isClose: map[*ast.CallExpr]bool{}, makeElem: map[*ast.CallExpr]ast.Expr{}, delMap: map[*ast.CallExpr]bool{},
-				lenMap: map[*ast.CallExpr]bool{}, rangeK: map[*ast.RangeStmt]string{}, mapIdx: map[*ast.IndexExpr]bool{}}
+				lenMap: map[*ast.CallExpr]bool{}, lenChan: map[*ast.CallExpr]bool{}, makeConv: map[*ast.CallExpr]ast.Expr{}, selBlock: map[*ast.BlockStmt]bool{}, rangeK: map[*ast.RangeStmt]string{}, mapIdx: map[*ast.IndexExpr]bool{}}
 			res := astutil.Apply(f, r.pre, r.post).(*ast.File)
 			if len(r.errs) > 0 {
 				for _, e := range r.errs {
